@@ -110,24 +110,30 @@ def body(ctx, p):
     supp = np.nonzero(np.any(M != 0, axis=0))[0]
     pix = np.stack([supp // W[1], supp % W[1]], axis=1)
     Xpos = np.stack([-np.ones(nxi), np.arange(nxi)], axis=1) * ps
+    code_st = [int(a) * W[1] + int(b) for a, b in scr.stencil_coords]
     if kind == "vk":
         want = np.arange(p["ncol"] * W[1])
-        ctx.require(len(supp) == len(want) and bool(np.all(supp == want)), "von Karman stencil: the new row depends on working pixels %r..., expected exactly the first %d rows" % (pix[:6].tolist(), p["ncol"]))
-        S, A = supp, M[:, supp]
+        # the new row may depend on nothing but the first n_columns rows (a far pixel may legitimately get weight exactly 0
+        # when its float32 covariance underflows, so the support can be smaller, never larger)
+        ctx.require(set(supp.tolist()) <= set(want.tolist()), "von Karman stencil: the new row depends on working pixels %r..., outside the first %d rows" % (pix[:6].tolist(), p["ncol"]))
+        ctx.require(len(supp) >= min(len(want), 1), "von Karman stencil: the new row depends on no pixel at all")
+        if len(supp) < len(want):
+            ctx.classes["stencil_pixels_with_exactly_zero_weight"] += 1
+        S, A = want, M[:, want]
     else:
         ref = 1 * W[1] + 1
         # constants are preserved: rows of the effective map sum to one (reference handling)
         ctx.close(M.sum(axis=1), np.ones(nxi), 1e-9, "Fried: effective weights of every new pixel sum to 1 (reference pixel handling)", scale=1.0, name="fried rows sum to one")
-        code_st = [int(a) * W[1] + int(b) for a, b in scr.stencil_coords]
+        ctx.require(set(supp.tolist()) <= set(code_st) | {ref}, "Fried: the new row depends on pixels %r that are neither in the stencil nor the reference pixel" % sorted(set(supp.tolist()) - set(code_st) - {ref})[:6])
         if ref in code_st:
             ctx.classes["reference_pixel_inside_stencil"] += 1
-            S = np.array(sorted(set(supp.tolist()) | {ref}))
-            A = np.asarray(scr.A_mat)[:, np.argsort(code_st)] if sorted(code_st) == S.tolist() else None
-            if A is None:
-                ctx.require(False, "Fried: recovered support %r differs from the stencil" % pix.tolist())
+            S = np.array(sorted(set(code_st)))
+            A = np.asarray(scr.A_mat)[:, np.argsort(code_st)]
         else:
-            S = np.array([q for q in supp if q != ref])
+            S = np.array(sorted(set(code_st)))
             A = M[:, S]
+            if len(set(supp.tolist()) - {ref}) < len(S):
+                ctx.classes["stencil_pixels_with_exactly_zero_weight"] += 1
         ctx.require(len(S) >= 1, "Fried: empty stencil")
     Spos = np.stack([S // W[1], S % W[1]], axis=1).astype(float) * ps
     Szz = sigma(Spos, Spos, r0, L0)
@@ -142,10 +148,9 @@ def body(ctx, p):
     ctx.residual("A Czz A^T + B B^T - Cxx over B(0), per unit (1+|A|_inf)^2", e2 / amp ** 2, 2e-6)
     ctx.require(e2 <= 2e-6 * amp * amp, "A Cov(Z,Z) A^T + B B^T != Cov(X,X): max error %.3g B(0); %s nx=%d (internal %d)" % (e2, kind, p["nx"], nxi))
     # cross-check with the attributes the anchor mentions
-    code_st = [int(a) * W[1] + int(b) for a, b in scr.stencil_coords]
     if kind == "vk" or ref not in code_st:
         order = np.argsort(code_st)
-        ctx.require(sorted(code_st) == S.tolist(), "stencil_coords %r differ from the pixels the new row actually depends on" % sorted(code_st)[:8])
+        ctx.require(sorted(code_st) == S.tolist(), "stencil_coords %r differ from the stencil the new row is built from" % sorted(code_st)[:8])
         ctx.close(np.asarray(scr.A_mat)[:, order], A, 1e-12, "A_mat attribute equals the recovered map", scale=float(np.max(np.abs(A))) or 1.0, name="A_mat cross-check")
     ctx.close(np.asarray(scr.B_mat), B, 1e-12, "B_mat attribute equals the recovered innovation map", scale=float(np.max(np.abs(B))) or 1.0, name="B_mat cross-check")
     # metamorphic: adding a constant to the whole screen adds exactly that constant to the new row (Fried); affine law for both
@@ -171,6 +176,8 @@ def self_test():
 
 
 LAWS = [
+    given_law("von_karman_xl", vk_cases(72), body, {"quick": 0, "thorough": 5}, shards={"quick": 1, "thorough": 16}),
+    given_law("fried_xl", fried_cases(100), body, {"quick": 0, "thorough": 2}, shards={"quick": 1, "thorough": 16}),
     given_law("von_karman", vk_cases(28), body, {"quick": 30, "thorough": 200}, shards={"quick": 5, "thorough": 16}),
     given_law("von_karman_large", vk_cases(40), body, {"quick": 5, "thorough": 40}, shards={"quick": 3, "thorough": 16}),
     given_law("fried", fried_cases(20), body, {"quick": 16, "thorough": 120}, shards={"quick": 5, "thorough": 16}),
